@@ -90,6 +90,15 @@ func main() {
 		os.Exit(cmdSelftest(os.Args[2:]))
 	case "run":
 		os.Exit(cmdRun(os.Args[2:]))
+	case "classify":
+		// debugging aid: how a crash / race report stored in a replay file is classified
+		rf, err := loadReplay(os.Args[2])
+		if err != nil {
+			fatal2("%v", err)
+		}
+		k, d := classifyCrash(rf.Violation.Msg)
+		fmt.Println(k, d)
+		os.Exit(0)
 	case "build":
 		// warm-up / debugging aid: builds the simulator (and with "race" also the
 		// -race variant) against the current tree and prints the path; the
@@ -849,30 +858,53 @@ func classifyCrash(stderr string) (string, map[string]string) {
 	return "", nil
 }
 
-// raceSites extracts the two top library frames of a race report.
+// raceSites names, for each of the two accesses of a race report, the code
+// that made it: walking down the access's stack, the first frame that belongs
+// to the library ("github.com/jhump/grpctunnel."), to the harness's
+// application-side accessors ("verif/sim/touch.", reported as "application:")
+// or to the harness proper ("verif/sim.", "verif/simrt." ...). Frames of the
+// runtime and of dependencies above it are skipped: a dependency is attributed
+// to whoever called it. An access made by the harness proper - directly or
+// through a dependency - is not an access of the code under test; a report
+// whose two accesses are both of that kind yields "" (harness-only).
 func raceSites(s string) string {
 	var sites []string
+	relevant := false
 	lines := strings.Split(s, "\n")
 	for i, l := range lines {
 		l = strings.TrimSpace(l)
-		if strings.HasPrefix(l, "Write at") || strings.HasPrefix(l, "Read at") || strings.HasPrefix(l, "Previous write at") || strings.HasPrefix(l, "Previous read at") {
-			for j := i + 1; j < len(lines) && j < i+40; j++ {
+		if strings.HasPrefix(l, "Write at") || strings.HasPrefix(l, "Read at") || strings.HasPrefix(l, "Previous write at") || strings.HasPrefix(l, "Previous read at") ||
+			strings.HasPrefix(l, "Atomic write at") || strings.HasPrefix(l, "Atomic read at") || strings.HasPrefix(l, "Previous atomic write at") || strings.HasPrefix(l, "Previous atomic read at") {
+			for j := i + 1; j < len(lines) && j < i+80; j++ {
 				f := strings.TrimSpace(lines[j])
 				if f == "" {
 					break
 				}
-				if strings.HasPrefix(f, "github.com/jhump/grpctunnel.") || strings.HasPrefix(f, "verif/sim/touch.") {
-					fn := f
-					if k := strings.LastIndex(fn, "("); k > 0 {
-						fn = fn[:k]
-					}
-					fn = strings.TrimPrefix(fn, "github.com/jhump/grpctunnel.")
-					fn = strings.Replace(fn, "verif/sim/touch.", "application:", 1)
-					sites = append(sites, fn)
-					break
+				if strings.HasPrefix(f, "/") {
+					continue // file:line of the frame above
 				}
+				fn := f
+				if k := strings.LastIndex(fn, "("); k > 0 {
+					fn = fn[:k]
+				}
+				switch {
+				case strings.HasPrefix(fn, "github.com/jhump/grpctunnel."):
+					sites = append(sites, strings.TrimPrefix(fn, "github.com/jhump/grpctunnel."))
+					relevant = true
+				case strings.HasPrefix(fn, "verif/sim/touch."):
+					sites = append(sites, strings.Replace(fn, "verif/sim/touch.", "application:", 1))
+					relevant = true
+				case strings.HasPrefix(fn, "verif/"):
+					sites = append(sites, "harness:"+strings.TrimPrefix(fn, "verif/"))
+				default:
+					continue
+				}
+				break
 			}
 		}
+	}
+	if !relevant {
+		return ""
 	}
 	sort.Strings(sites)
 	return strings.Join(sites, " vs ")
